@@ -5,7 +5,7 @@
                                       one edit once the copies exist (isolation)
   <PAIR>_qe.cfg  quick,    edits:     public setters from both sides around link / copy / re-open
   <PAIR>_ts.cfg  thorough, structure: boolean masks and extents, second mask, other workspace + extent, isolation edits
-                                      through channels and timing_mark (DC / MT: depth 5, two re-opens)
+                                      through channels (and timing_mark on LLTEM); DC / MT: depth 5, two re-opens
   <PAIR>_te.cfg  thorough, edits:     every setter of the pair, rejected values, depth 4, cross-workspace copies
   (the thorough tier also runs the two quick configurations)
   <PAIR>_dev_<Deviation>.cfg  negative controls: exactly one named deviation on, TLC must report a violated property
@@ -32,6 +32,10 @@ QUICK_OPS = {
 # quick structure depth: one pair per copy implementation goes to depth 4 (plain EM: ATEM, large loop: LLFEM,
 # DC, MT), the others to depth 3
 QS_DEPTH = {"ATEM": 4, "AFEM": 3, "MLTEM": 3, "MLFEM": 3, "LLTEM": 3, "LLFEM": 4, "TIP": 3, "TIP1": 3, "DC": 5, "MT": 5}
+
+# thorough structure depth: one pair per copy implementation at depth 4 (plain EM, both large-loop pairs, single base
+# station), DC / MT at depth 5, the pairs that share BaseEMSurvey.copy unchanged at depth 3
+TS_DEPTH = {"ATEM": 4, "AFEM": 3, "MLTEM": 3, "MLFEM": 3, "LLTEM": 4, "LLFEM": 4, "TIP": 3, "TIP1": 4, "DC": 5, "MT": 5}
 
 INV = """VIEW vw
 INVARIANT Mutual
@@ -87,8 +91,8 @@ def main():
         files = {
             "qs": cfg(pair, QS_DEPTH[pair], 2, 1, 1, ["channels"], q_modes, ["lo"], 1, "copied"),
             "qe": cfg(pair, 3, 1, 2, 1, QUICK_OPS[pair], ["plain-same"], ["lo"], 2, "always"),
-            "ts": cfg(pair, 5 if pair in ("DC", "MT") else 4, 2, 1, 2 if pair in ("DC", "MT") else 1,
-                      ["channels"] if pair == "MLTEM" else ["channels", "timing_mark"],
+            "ts": cfg(pair, TS_DEPTH[pair], 2, 1, 2 if pair in ("DC", "MT") else 1,
+                      ["channels", "timing_mark"] if pair == "LLTEM" else ["channels"],
                       t_modes, ["lo", "mid"], 1, "copied"),
             "te": cfg(pair, 4, 1, 2, 1, ALL_OPS, ["plain-other"], ["lo"], 2, "always", bad=True),
         }
